@@ -121,6 +121,8 @@ type FlowFn struct {
 	deferIdx   map[*ast.DeferStmt]int
 	lits       map[*ast.FuncLit]*FlowFn
 	addrArgs   map[*ast.UnaryExpr]bool // &x used directly as a call argument
+	assignSites map[types.Object][]token.Pos
+	addrTaken   map[types.Object]bool
 }
 
 func noReturnCall(info *types.Info, call *ast.CallExpr) bool {
@@ -150,7 +152,8 @@ func (p *Prog) FlowOf(fi *FuncInfo) *FlowFn {
 func newFlowFn(p *Prog, pkg *packages.Package, name string, node ast.Node, typ *ast.FuncType, recv *ast.FieldList, body *ast.BlockStmt, outer *FlowFn) *FlowFn {
 	f := &FlowFn{P: p, Pkg: pkg, Info: pkg.TypesInfo, Name: name, Node: node, Type: typ, Recv: recv, Body: body, Outer: outer,
 		commStmts: map[ast.Node]*ast.CommClause{}, caseSwitch: map[*ast.CaseClause]ast.Stmt{}, untracked: map[types.Object]bool{},
-		deferIdx: map[*ast.DeferStmt]int{}, lits: map[*ast.FuncLit]*FlowFn{}, addrArgs: map[*ast.UnaryExpr]bool{}}
+		deferIdx: map[*ast.DeferStmt]int{}, lits: map[*ast.FuncLit]*FlowFn{}, addrArgs: map[*ast.UnaryExpr]bool{},
+		assignSites: map[types.Object][]token.Pos{}, addrTaken: map[types.Object]bool{}}
 	info := f.Info
 	f.G = cfg.New(body, func(c *ast.CallExpr) bool { return !noReturnCall(info, c) })
 	deferredLits := map[*ast.FuncLit]bool{}
@@ -216,19 +219,22 @@ func newFlowFn(p *Prog, pkg *packages.Package, name string, node ast.Node, typ *
 				if m.Op == token.AND && !f.addrArgs[m] {
 					if o := identObj(info, m.X); o != nil {
 						f.untracked[o] = true
+						f.addrTaken[o] = true
 					}
 				}
 			case *ast.AssignStmt:
-				if inLit {
-					for _, l := range m.Lhs {
-						if o := identObj(info, l); o != nil {
+				for _, l := range m.Lhs {
+					if o := identObj(info, l); o != nil {
+						f.assignSites[o] = append(f.assignSites[o], m.Pos())
+						if inLit {
 							f.untracked[o] = true
 						}
 					}
 				}
 			case *ast.IncDecStmt:
-				if inLit {
-					if o := identObj(info, m.X); o != nil {
+				if o := identObj(info, m.X); o != nil {
+					f.assignSites[o] = append(f.assignSites[o], m.Pos())
+					if inLit {
 						f.untracked[o] = true
 					}
 				}
@@ -257,11 +263,35 @@ func (f *FlowFn) Lit(l *ast.FuncLit) *FlowFn {
 		if o.Pos() >= l.Pos() && o.Pos() < l.End() {
 			continue // the literal's own locals are judged by its own scan
 		}
+		if !f.addrTaken[o] {
+			// a captured variable that is only written inside this literal, or
+			// before the literal is created, has a single writer while the
+			// literal runs: it can be tracked inside the literal
+			only := true
+			for _, p := range f.assignSites[o] {
+				if !(p >= l.Pos() && p < l.End()) && p > l.Pos() {
+					only = false
+				}
+			}
+			if only {
+				continue
+			}
+		}
 		g.untracked[o] = true
 	}
 	f.lits[l] = g
 	return g
 }
+
+// LoopExit is a marker node handed to Interp.Node when control leaves a range
+// loop (after zero or more iterations).
+type LoopExit struct {
+	ast.EmptyStmt
+	Range *ast.RangeStmt
+}
+
+func (l *LoopExit) Pos() token.Pos { return l.Range.End() }
+func (l *LoopExit) End() token.Pos { return l.Range.End() }
 
 // Interp gives meaning to nodes and branches for one rule.
 type Interp interface {
@@ -459,6 +489,35 @@ func (x *Exec) block(b *cfg.Block, s St) {
 			}
 		}
 	}
+	if b.Kind == cfg.KindRangeBody || b.Kind == cfg.KindForBody {
+		// variables declared inside the loop body are fresh in every
+		// iteration: what was known about the previous iteration's
+		// instances is dropped (sound, and keeps the state space small)
+		var body *ast.BlockStmt
+		switch st := b.Stmt.(type) {
+		case *ast.RangeStmt:
+			body = st.Body
+		case *ast.ForStmt:
+			body = st.Body
+		}
+		if body != nil {
+			lo, hi := body.Pos(), body.End()
+			for i := range states {
+				states[i] = states[i].Filter(func(k, v string) bool {
+					return isTrackKey(k) && (mentionsRange(k, lo, hi) || ((strings.HasPrefix(k, "al:") || strings.HasPrefix(k, "tm:") || strings.HasPrefix(k, "lin:")) && mentionsRange(v, lo, hi)))
+				})
+			}
+		}
+	}
+	if b.Kind == cfg.KindRangeDone {
+		if rs, ok := b.Stmt.(*ast.RangeStmt); ok {
+			var next []St
+			for _, st := range states {
+				next = append(next, x.I.Node(x, &LoopExit{Range: rs}, st)...)
+			}
+			states = next
+		}
+	}
 	if b.Kind == cfg.KindRangeBody {
 		// the key/value variables are (re)assigned on every iteration
 		if rs, ok := b.Stmt.(*ast.RangeStmt); ok && (rs.Key != nil || rs.Value != nil) {
@@ -471,7 +530,11 @@ func (x *Exec) block(b *cfg.Block, s St) {
 			if rs.Value != nil {
 				as.Lhs = append(as.Lhs, rs.Value)
 			}
-			states = x.I.Node(x, as, s)
+			var next []St
+			for _, st := range states {
+				next = append(next, x.I.Node(x, as, st)...)
+			}
+			states = dedupe(next)
 		}
 	}
 	nodes := b.Nodes
